@@ -97,7 +97,11 @@ func runC07(r *mc.Run) {
 	mkLevel := func(isv int, st string) world.Level {
 		return world.Level{Tcb: world.Tcb{Isvsvn: world.IntP(isv)}, TcbDate: "2029-06-01T00:00:00Z", TcbStatus: st}
 	}
-	for n := 1; n <= 3; n++ {
+	maxLevels := 3
+	if r.Thorough() {
+		maxLevels = 4
+	}
+	for n := 1; n <= maxLevels; n++ {
 		total := 21
 		for k := 1; k < n; k++ {
 			total *= 9
